@@ -1599,11 +1599,10 @@ def memo(cx):
             for c in (qd.parse_split_opts, qd.parse_method_absorb, qd.parse_split_left_right_isom):
                 c.cache_clear()
             order = (True, other) if first == "True-first" else (other, True)
-            got = {rn: run(rn) for rn in order}
+            got = [run(rn) for rn in order]  # a list: True and 1 are the same dictionary key
             sref = _svals(_up(x))
             tl = _tols("svd", dtype)
-            for rn in order:
-                s = got[rn]
+            for rn, s in zip(order, got):
                 k = len(s)
                 p = MODE_POW[mode] if rn is True else rn
                 want = _renorm_factor(sref, k, p) * sref[:k]
